@@ -201,7 +201,8 @@ def sealnonce(rep, prog):
     rep.ob("SEALNONCE", "output is the nonce", out == 1, "final writes parameter #%s" % out, loc=fins[0].loc())
     # the sealing function prepends epk: ciphertext[..32] <- epk from the generated pair
     for s in prog.by_path.get("classic::crypto_box::crypto_box_seal", []):
-        ct = s.arg_local("ciphertext")
+        cts = [p for p in cm.params_of(s) if s.locals[p]["t"] == "&mut [u8]"]     # crypto_box_seal(ciphertext, message, pk)
+        ct = cts[0] if len(cts) == 1 else s.arg_local("ciphertext")
         cps = [c for c in s.calls() if c.path in cm.COPY
                and cm.view_info(s, list(operand_locals(c.args[0]))[0])[0] == ct]
         kp = [c for c in s.calls() if "keypair" in c.rpath]
